@@ -82,6 +82,8 @@ pub(crate) struct TcpChannelTask {
     client_loop: ClientLoop,
     listener: Box<dyn Listener<ClientState>>,
     channel_logging: ChannelLoggingMode,
+    #[cfg(feature = "verif-hooks")]
+    verif_connector: Option<Box<dyn crate::verif::Connector>>,
 }
 
 impl TcpChannelTask {
@@ -106,6 +108,30 @@ impl TcpChannelTask {
             ),
             listener,
             channel_logging: options.channel_logging,
+            #[cfg(feature = "verif-hooks")]
+            verif_connector: None,
+        }
+    }
+
+    #[cfg(feature = "verif-hooks")]
+    pub(crate) fn set_verif_connector(&mut self, connector: Box<dyn crate::verif::Connector>) {
+        self.verif_connector = Some(connector);
+    }
+
+    // the connection attempt is answered by the harness instead of the OS; everything that
+    // happens before and after the attempt is the production code
+    #[cfg(feature = "verif-hooks")]
+    async fn verif_connect_and_run(
+        &mut self,
+        attempt: crate::verif::ConnectFuture,
+    ) -> Result<(), StateChange> {
+        let res = tokio::select! {
+            res = attempt => Ok(res),
+            res = self.client_loop.fail_requests() => Err(res),
+        };
+        match res? {
+            Err(err) => self.handle_failed_connection(err).await,
+            Ok(io) => self.run_connection(PhysLayer::new_verif(io)).await,
         }
     }
 
@@ -146,6 +172,10 @@ impl TcpChannelTask {
 
     async fn try_connect_and_run(&mut self) -> Result<(), StateChange> {
         self.listener.update(ClientState::Connecting).get().await;
+        #[cfg(feature = "verif-hooks")]
+        if let Some(attempt) = self.verif_connector.as_mut().map(|x| x.connect()) {
+            return self.verif_connect_and_run(attempt).await;
+        }
         match self.connect().await? {
             Err(err) => self.handle_failed_connection(err).await,
             Ok(stream) => {
